@@ -28,7 +28,11 @@ var docFields = map[string]defMap{
 	"t1": {"a": {Kind: "attr", K: "string"}, "n": {Kind: "attr", K: "int", Null: true},
 		"o": {Kind: "rel", To1: true, TT: "t2"}, "m": {Kind: "rel", To1: false, TT: "t2"},
 		"o2": {Kind: "rel", To1: true, TT: "t2"}, "m2": {Kind: "rel", To1: false, TT: "t2"}},
-	"t2": {"b": {Kind: "attr", K: "string"}, "p": {Kind: "rel", To1: true, TT: "t1"}},
+	"t2": {"b": {Kind: "attr", K: "string"}, "p": {Kind: "rel", To1: true, TT: "t1"},
+		// eight more attributes: a selection for t2 can name more than eight fields
+		"c1": {Kind: "attr", K: "string"}, "c2": {Kind: "attr", K: "int", Null: true}, "c3": {Kind: "attr", K: "string"},
+		"c4": {Kind: "attr", K: "string"}, "c5": {Kind: "attr", K: "int"}, "c6": {Kind: "attr", K: "string", Null: true},
+		"c7": {Kind: "attr", K: "string"}, "c8": {Kind: "attr", K: "string"}},
 }
 
 type dRes struct {
@@ -853,6 +857,15 @@ func randDocRes(rng *rand.Rand, typ, id string) dRes {
 		r.Vals["m2"] = jVal{IDs: pick([][]string{{}, {"w"}, {"u", "w"}})}
 	} else {
 		r.Vals["b"] = jVal{R: rng.Intn(4), IDs: []string{}}
+		for _, f := range sortedKeys(docFields["t2"]) {
+			d := docFields["t2"][f]
+			if d.Kind == "attr" && f != "b" {
+				r.Vals[f] = jVal{R: rng.Intn(4), IDs: []string{}}
+				if d.Null && rng.Intn(3) == 0 {
+					r.Vals[f] = jVal{Nil: true, IDs: []string{}}
+				}
+			}
+		}
 		r.Vals["p"] = jVal{IDs: pick([][]string{{}, {"x"}, {"y"}})}
 	}
 	return r
